@@ -14,13 +14,36 @@ type vDistance struct{}
 
 func (vDistance) Compare(a, b uint8) int { return int(a) - int(b) }
 
-// VComparator: the library's ordered comparator or the distance comparator (forked).
-func VComparator() Comparator[uint8] { return vComparator() }
+// vShifted orders the keys by k xor 0x80 (128..255 come before 0..127): the zero value of the key type is then
+// not the smallest key, which matters to code that confuses the list's sentinel node with an element.
+type vShifted struct{}
 
-func vComparator() Comparator[uint8] {
+func (vShifted) Compare(a, b uint8) int { return int(a^0x80) - int(b^0x80) }
+
+// vFlip is the mask of the order in use: rank(k) = k xor vFlip is ascending in that order.
+var vFlip uint8
+
+func vRank(k uint8) uint8 { return k ^ vFlip }
+
+// VComparator: the library's ordered comparator or the distance comparator (forked).
+func VComparator() Comparator[uint8] {
 	if vrt.Choose("cmp", 2) == 1 {
 		vrt.Tag("distance-comparator")
 		return vDistance{}
+	}
+	return OrderedComparator[uint8]{}
+}
+
+func vComparator() Comparator[uint8] {
+	vFlip = 0
+	switch vrt.Choose("cmp", 3) {
+	case 1:
+		vrt.Tag("distance-comparator")
+		return vDistance{}
+	case 2:
+		vrt.Tag("shifted-comparator")
+		vFlip = 0x80
+		return vShifted{}
 	}
 	return OrderedComparator[uint8]{}
 }
@@ -48,7 +71,7 @@ func vSorted(keys []uint8) []int {
 	}
 	for i := 0; i < len(idx); i++ {
 		for j := i + 1; j < len(idx); j++ {
-			if keys[idx[j]] < keys[idx[i]] {
+			if vRank(keys[idx[j]]) < vRank(keys[idx[i]]) {
 				idx[i], idx[j] = idx[j], idx[i]
 			}
 		}
@@ -78,10 +101,10 @@ func vCheckSeq(keys []uint8, order []int, lo, hi uint8, useLo, useHi bool, ks, v
 	for _, ix := range order {
 		k := keys[ix]
 		in := true
-		if useLo && k < lo {
+		if useLo && vRank(k) < vRank(lo) {
 			in = false
 		}
-		if useHi && k > hi {
+		if useHi && vRank(k) > vRank(hi) {
 			in = false
 		}
 		if in {
@@ -146,7 +169,7 @@ func H_C16_SkipBetween() {
 	lo := vrt.Byte("lo")
 	hi := vrt.Byte("hi")
 	it, err := m.IteratorBetween(lo, hi)
-	if lo > hi {
+	if vRank(lo) > vRank(hi) {
 		vrt.Reach("skip/between-rejected")
 		vrt.Assert(err != nil, "skip/between-lower-above-upper-rejected")
 		vrt.Reach("skip/end")
